@@ -131,7 +131,7 @@ theorem C15_hash_history_fresh (w0 : HWorld) (hw : w0.WF) (ops : List HOp) (c : 
 
 /-! ## TreeSet / TreeMap -/
 
-/-- **bump_on_mutation** including range removal, `MergeTo` swap-when-empty, `pvMergeFast` (source and destination) and
+/-- **bump_on_mutation** including range removal, `MergeTo` into an empty destination, `pvMergeFast` (source and destination) and
     the item-by-item merge: every change of (keys, root node, node params) of a crew increments its version -/
 theorem C15_tree_bump_on_mutation (w : TWorld) (hw : w.WF) (op : TOp) (hnr : ∀ o h k, op ≠ .resetKey o h k) :
     (w.step op).1.WF ∧ (∀ c, w.cs c ≤ (w.step op).1.cs c) ∧
